@@ -52,6 +52,8 @@ type result struct {
 	predCast map[string]string
 	// Strings: the string literals of the lexer and of the parser (their error messages among them)
 	Strings map[string][]string `json:"strings"`
+	// Api: the exported functions and methods of the root package (the hook files excepted), "Recv.Name" or "Name"
+	Api []string `json:"api"`
 }
 
 func main() {
@@ -157,9 +159,20 @@ func main() {
 					continue
 				}
 				scanFunc(fset, rel, relf, fd, vars, &res)
+				if rel == "." && ast.IsExported(fd.Name.Name) && !strings.HasPrefix(relf, "verif_") {
+					n := fd.Name.Name
+					if fd.Recv != nil && len(fd.Recv.List) > 0 {
+						if r := recvName(fd); ast.IsExported(r) {
+							res.Api = append(res.Api, r+"."+n)
+						}
+					} else {
+						res.Api = append(res.Api, n)
+					}
+				}
 			}
 		}
 	}
+	sort.Strings(res.Api)
 	evalPredicates(&res)
 	if coq {
 		printCoq(res)
